@@ -175,16 +175,24 @@ Fixpoint ie_expr (L : nat) (ps : pass) (e : expr) (s : ie_st) {struct e} : expr 
   | _ => emapM (ie_expr L ps) e s
   end.
 
-Fixpoint ie_stmt (L : nat) (ps : pass) (st : stmt) (s : ie_st) {struct st} : list stmt * ie_st :=
+(* PROPOSED REPAIR (fixes/C08-iter-elim-live-source.diff): a loop whose body may write to a list
+   (an indexed assignment or a call anywhere in it) is left alone *)
+Fixpoint tree_has_tag (tags : list string) (t : tree) : bool :=
+  match t with T g _ _ kids => mem g tags || existsb (tree_has_tag tags) kids end.
+
+Definition body_may_write_list (b : block) : bool :=
+  existsb (fun st => tree_has_tag ["iassign"%string; "call"%string; "ctor"%string] (tree_of_stmt st)) b.
+
+Fixpoint ie_stmt (fx : bool) (L : nat) (ps : pass) (st : stmt) (s : ie_st) {struct st} : list stmt * ie_st :=
   match st with
   | SFor p it b =>
-      match ie_match ps p it with
+      match (if fx && body_may_write_list b then None else ie_match ps p it) with
       | Some (idx_slot, pl) =>
-          let '(b', s1) := bmapM (ie_stmt L ps) b s in
+          let '(b', s1) := bmapM (ie_stmt fx L ps) b s in
           ie_rewrite_for L idx_slot pl b' s1
       | None =>
           let '(it', s1) := ie_expr L ps it s in
-          let '(b', s2) := bmapM (ie_stmt L ps) b s1 in
+          let '(b', s2) := bmapM (ie_stmt fx L ps) b s1 in
           ([SFor p it' b'], s2)
       end
   | SAssign p e => let '(e', s1) := ie_expr L ps e s in ([SAssign p e'], s1)
@@ -193,30 +201,33 @@ Fixpoint ie_stmt (L : nat) (ps : pass) (st : stmt) (s : ie_st) {struct st} : lis
       let '(e', s2) := ie_expr L ps e s1 in ([SIndexAssign x idx' e'], s2)
   | SIf1 c b =>
       let '(c', s1) := ie_expr L ps c s in
-      let '(b', s2) := bmapM (ie_stmt L ps) b s1 in ([SIf1 c' b'], s2)
+      let '(b', s2) := bmapM (ie_stmt fx L ps) b s1 in ([SIf1 c' b'], s2)
   | SIf c t f =>
       let '(c', s1) := ie_expr L ps c s in
-      let '(t', s2) := bmapM (ie_stmt L ps) t s1 in
-      let '(f', s3) := bmapM (ie_stmt L ps) f s2 in ([SIf c' t' f'], s3)
+      let '(t', s2) := bmapM (ie_stmt fx L ps) t s1 in
+      let '(f', s3) := bmapM (ie_stmt fx L ps) f s2 in ([SIf c' t' f'], s3)
   | SWhile c b =>
       let '(c', s1) := ie_expr L ps c s in
-      let '(b', s2) := bmapM (ie_stmt L ps) b s1 in ([SWhile c' b'], s2)
+      let '(b', s2) := bmapM (ie_stmt fx L ps) b s1 in ([SWhile c' b'], s2)
   | SContext x e b =>
       let '(e', s1) := ie_expr L ps e s in
-      let '(b', s2) := bmapM (ie_stmt L ps) b s1 in ([SContext x e' b'], s2)
+      let '(b', s2) := bmapM (ie_stmt fx L ps) b s1 in ([SContext x e' b'], s2)
   | SAssert e => let '(e', s1) := ie_expr L ps e s in ([SAssert e'], s1)
   | SEffect e => let '(e', s1) := ie_expr L ps e s in ([SEffect e'], s1)
   | SReturn e => let '(e', s1) := ie_expr L ps e s in ([SReturn e'], s1)
   | SPass => ([SPass], s)
   end.
 
-Definition ie_pass (ps : pass) (fn : func) : func :=
-  set_body fn (fst (bmapM (ie_stmt (max_len (func_names fn)) ps) (f_body fn) (IeSt O))).
+Definition ie_pass (fx : bool) (ps : pass) (fn : func) : func :=
+  set_body fn (fst (bmapM (ie_stmt fx (max_len (func_names fn)) ps) (f_body fn) (IeSt O))).
 
-Definition enumerate_elim := ie_pass PEnum.
-Definition zip_elim := ie_pass PZip.
+Definition enumerate_elim := ie_pass false PEnum.
+Definition zip_elim := ie_pass false PZip.
 
 (* elim_iter(f, enable_enumerate, enable_zip): EnumerateElim first, then ZipElim *)
-Definition elim_iter (en_enum en_zip : bool) (fn : func) : func :=
-  let f1 := if en_enum then enumerate_elim fn else fn in
-  if en_zip then zip_elim f1 else f1.
+Definition elim_iter_gen (fx : bool) (en_enum en_zip : bool) (fn : func) : func :=
+  let f1 := if en_enum then ie_pass fx PEnum fn else fn in
+  if en_zip then ie_pass fx PZip f1 else f1.
+
+Definition elim_iter := elim_iter_gen false.         (* as coded *)
+Definition elim_iter_fixed := elim_iter_gen true.    (* with the proposed repair *)
